@@ -282,8 +282,11 @@ structure World where
   cache : Assoc Int := []
   /-- `dnsKnowledge`: base key ↦ expiresAt -/
   know : Assoc Int := []
-  /-- `realDomainSet` (the Bloom filter is modelled as an exact set: false positives are residue) -/
+  /-- `realDomainSet`: the names added since the filter was last cleared (the Bloom filter is
+  modelled as an exact set; within its design capacity its false-positive rate is ≤ 0.001) -/
   realSet : List Str := []
+  /-- `realDomainSetAdds` -/
+  realAdds : Nat := 0
   /-- `realDomainNegSet` -/
   neg : Assoc Int := []
 deriving Repr, Inhabited
@@ -375,6 +378,9 @@ def dnsResp (w : World) (isResponse hasQuestion rcodeOk : Bool) (qname : Str) (q
 
 /-! ### real-domain caches and the probe -/
 
+/-- `realDomainSetCapacity`: the filter is cleared before it takes more names than it is sized for. -/
+def realCap : Nat := 2048
+
 /-- `lookupRealDomainCache` → `(known, real)`; deletes an expired negative entry. -/
 def lookupReal (w : World) (d : Str) : World × Bool × Bool :=
   if w.realSet.contains d then (w, true, true) else
@@ -417,7 +423,10 @@ def probe (w : World) (d : Str) (answers : List Ans) : World :=
     let r := resolveAll (answers.take w.nboot) none
     if r.err4 && r.err6 then w                     -- probe failed for both families
     else if !r.ip4 && !r.ip6 then { w with neg := w.neg.put d (w.now + w.negTtl) }
-    else { w with realSet := d :: w.realSet, neg := w.neg.del d }
+    else if w.realAdds ≥ realCap then
+      -- `ClearAll()` first: every earlier name is dropped (and will be probed again)
+      { w with realSet := [d], realAdds := 1, neg := w.neg.del d }
+    else { w with realSet := d :: w.realSet, realAdds := w.realAdds + 1, neg := w.neg.del d }
 
 /-- how many times the probe calls `resolveIp46ForRealDomainProbe` (observable in the harness). -/
 def probeCalls (w : World) (answers : List Ans) : Nat :=
